@@ -55,6 +55,11 @@ Pool == <<
                            <<ExprStmt(Bin("E.Divide", Var("sx"), Num("4")))>>)>>),
     Ct("HalfCap", <<StateVar("hc", U256, <<"public">>, <<Bin("E.Divide", Num("1000000"), Num("2"))>>), Fn("useHc", "external", <<>>)>>),
     N("SUP.VariableDefinition", [name |-> "FILE_HALF", vattrs |-> <<"constant">>], <<<<U256>>, <<Bin("E.Divide", Num("4096"), Num("8"))>>>>),
+    \* a local initialised with a quotient in the last function of one item; a free function (and a library function) of
+    \* another item whose parameter bears the same name and is multiplied: a local name means nothing outside its function
+    Ct("Quot", <<Fn("split", "public", <<LocalVar("q", U256, <<Bin("E.Divide", Var("k1"), Var("k2"))>>)>>)>>),
+    N("SUP.FunctionDefinition", [fty |-> "function", name |-> "useQ", params |-> <<[present |-> TRUE, storage |-> "", name |-> "q"]>>, attributes |-> <<>>, returns |-> <<>>],
+      <<<<U256>>, <<>>, <<>>, <<Block(<<ExprStmt(Bin("E.Multiply", Var("q"), Num("3")))>>)>>>>),
     \* a loop without a condition, and a loop whose condition reads an array length, in different items
     Ct("Forever", <<Fn("spin", "public", <<N("S.For", A0, <<<<>>, <<>>, <<>>, <<Block(<<N("S.Break", A0, <<>>)>>)>>>>)>>)>>),
     Ct("LenLoop", <<StateVar("arr", N("E.ArraySubscript", A0, <<<<U256>>, <<>>>>), <<>>, <<>>),
